@@ -202,8 +202,11 @@ def parse_hint(content: bytes) -> Optional[Tuple[int, str]]:
         except ValueError:      # more digits than int() converts
             return None
     m = _META_RE.match(t)
-    if m:
-        return int(m.group(1)), t
+    if m and t.isascii():
+        try:
+            return int(m.group(1)), t
+        except ValueError:
+            return None
     return None
 
 
